@@ -141,8 +141,10 @@ class Protector1(ResourceProtector):
         return self.store.clients.get(client_id)
 
     def get_token_credential(self, request):
+        # as the shipped integrations look it up: for THIS client (django: objects.get(client_id=…, oauth_token=…); Flask: query_token(client_id, oauth_token))
         self.store.cb("get_token_credential")
-        return self.store.creds.get(request.token)
+        c = self.store.creds.get(request.token)
+        return c if c is not None and c.client_id == request.client_id else None
 
     def exists_nonce(self, nonce, request):
         return self.store.exists_nonce(nonce, request)
